@@ -154,7 +154,9 @@ type unredactableEvent interface {
 
 func redactEventJSON[T unredactableEvent](eventJSON []byte, unredactableEvent T, eventTypeToKeepContentFields map[string][]string, eventTypeToKeepNestedContentFields map[string]map[string][]string) ([]byte, error) {
 	// Unmarshalling into a struct will discard any extra fields from the event.
-	if err := json.Unmarshal(eventJSON, &unredactableEvent); err != nil {
+	// unredactableEvent is a pointer already: passing its address would let the
+	// JSON value null set it to nil.
+	if err := json.Unmarshal(eventJSON, unredactableEvent); err != nil {
 		return nil, err
 	}
 	newContent := map[string]interface{}{}
